@@ -1,25 +1,99 @@
 /*
- * shared by the C19 harnesses: includes the REAL aws/aws_sign.c, util/asprintf.c and util/hexify.c, defines the
- * ghost state the contracts declare, builds arbitrary bounded inputs, and binds the two primitives of the SigV4
- * specification (spec/sigv4_spec.h) to the SPEC SIDE of the lockstep trace abstraction (G2): the k-th hash call
- * of the specification must have the same kind, key bytes and message bytes as the k-th call the implementation
+ * shared by the C19 harnesses: includes the REAL aws/aws_sign.c and util/hexify.c, defines the ghost state the
+ * contracts declare, builds arbitrary inputs, and binds the primitives of the SigV4 specification
+ * (spec/sigv4_spec.h) to the SPEC SIDE of the lockstep trace abstraction (G2): the k-th hash call of the
+ * specification must have the same kind, the same key and the same message as the k-th call the implementation
  * made (logged by models/aws_hash.c) and then receives the same digest.
+ *
+ * "Same message": the specification's message is a string in normal form (models/aws_stream.h).  The logged
+ * message (address, length, bytes) equals it when
+ *   (A) the normal form is a single input string and the implementation hashed exactly that object in full, or
+ *   (B) the implementation hashed the UNMODIFIED result of one of its asprintf calls (address, length and bytes equal
+ *       the model's record) and that call's normal form equals the specification's, or
+ *   (C) the normal form is a single run of text and the logged bytes are that text.
  */
 #include <stdlib.h>
 #include <string.h>
 #include "verif.h"
 #include "aws_hash.h"
 #include "aws_time.h"
+#include "aws_stream.h"
+#include "aws_fmt.h"
+
+/* ids of the input objects in g_aws_in */
+#define C19_ID_KEY_ID	0
+#define C19_ID_SECRET	1
+#define C19_ID_REGION	2
+#define C19_ID_METHOD	3
+#define C19_ID_BUCKET	4
+#define C19_ID_PATH	5
+#define C19_ID_SVC	6
+#define C19_ID_OP	7
+#define C19_ID_BODY	8
+#define C19_ID_DATE	9
+#define C19_ID_DATETIME	10
+#define C19_ID_CREQ	11
+
+#pragma CPROVER check push
+#pragma CPROVER check disable "conversion"
+/* does (ptr, len, bytes[cap]) -- a logged key or message -- equal the string with normal form E ? */
+static int
+c19_bytes_are(const void * ptr, size_t len, const uint8_t * bytes, size_t cap, const struct aws_stream * E)
+{
+	size_t i, k;
+	int ok = 0;
+
+	if (E->n == 0)
+		return (len == 0);
+	/* (A) one whole input object */
+	if (E->n == 1 && E->t[0].kind == AWS_TK_REF) {
+		const struct aws_var * v = &g_aws_in[E->t[0].id];
+		int same = (ptr == v->ptr && len == v->len);
+
+		for (i = 0; i < cap; i++)
+			if (i < len && i < v->len && bytes[i] != ((const uint8_t *)v->ptr)[i])
+				same = 0;
+		if (same)
+			ok = 1;
+	}
+	/* (C) one run of text */
+	if (E->n == 1 && E->t[0].kind == AWS_TK_TEXT) {
+		int same = (len == E->t[0].len);
+
+		for (i = 0; i < AWS_TXMAX; i++)
+			if (i < E->t[0].len && i < cap && bytes[i] != E->t[0].text[i])
+				same = 0;
+		if (E->t[0].len > cap)
+			same = 0;
+		if (same)
+			ok = 1;
+	}
+	/* (B) the unmodified result of an asprintf call with this normal form */
+	for (k = 0; k < AWS_NREC; k++) {
+		if (k < g_aws_fmt.n) {
+			const struct aws_fmt_rec * r = &g_aws_fmt.rec[k];
+			int same = (ptr == (const void *)r->result && len == r->len && len <= cap);
+
+			for (i = 0; i < cap && i < AWS_OUTMAX; i++)
+				if (i < len && bytes[i] != r->snap[i])
+					same = 0;
+			if (same && aws_stream_eq(&r->s, E))
+				ok = 1;
+		}
+	}
+	return (ok);
+}
+#pragma CPROVER check pop
 
 /* ---- spec side of the lockstep ---- */
 static size_t c19_sp_k;		/* index of the next specification-side hash call */
 static int c19_sp_ok_kind, c19_sp_ok_key, c19_sp_ok_msg, c19_sp_ok_count;
 
 static void
-c19_spec_call(int kind, const uint8_t * key, size_t klen, const uint8_t * msg, size_t mlen, uint8_t out[32])
+c19_spec_call(int kind, const struct aws_stream * skey, const uint8_t * bkey, const struct aws_stream * msg,
+    uint8_t out[32])
 {
 	size_t i;
-	int same_key = 1, same_msg = 1;
 
 	if (!(c19_sp_k < g_aws_n && c19_sp_k < AWS_LOG_N)) {
 		/* the implementation made fewer calls than the specification */
@@ -32,47 +106,71 @@ c19_spec_call(int kind, const uint8_t * key, size_t klen, const uint8_t * msg, s
 	const struct aws_hcall * e = &g_aws_log[c19_sp_k];
 	if (e->kind != kind)
 		c19_sp_ok_kind = 0;
-	if (e->klen != klen)
-		same_key = 0;
-	for (i = 0; i < AWS_KMAX; i++)
-		if (i < klen && e->key[i] != key[i])
-			same_key = 0;
-	if (e->mlen != mlen)
-		same_msg = 0;
-	for (i = 0; i < AWS_MMAX; i++)
-		if (i < mlen && e->msg[i] != msg[i])
-			same_msg = 0;
-	if (!same_key)
-		c19_sp_ok_key = 0;
-	if (!same_msg)
+	if (skey != NULL) {
+		if (!c19_bytes_are(e->kptr, e->klen, e->key, AWS_KMAX, skey))
+			c19_sp_ok_key = 0;
+	} else if (bkey != NULL) {
+		if (e->klen != 32)
+			c19_sp_ok_key = 0;
+		for (i = 0; i < 32; i++)
+			if (e->key[i] != bkey[i])
+				c19_sp_ok_key = 0;
+	}
+	if (!c19_bytes_are(e->mptr, e->mlen, e->msg, AWS_MMAX, msg))
 		c19_sp_ok_msg = 0;
 	for (i = 0; i < 32; i++)
 		out[i] = e->out[i];
 	c19_sp_k++;
 }
-#define SV4_SHA256(msg, len, out) c19_spec_call(AWS_K_SHA256, NULL, 0, (msg), (len), (out))
-#define SV4_HMAC(key, klen, msg, len, out) c19_spec_call(AWS_K_HMAC, (key), (klen), (msg), (len), (out))
+#define SV4_SHA256(msg, out)		c19_spec_call(AWS_K_SHA256, NULL, NULL, (msg), (out))
+#define SV4_HMAC_S(key, msg, out)	c19_spec_call(AWS_K_HMAC, (key), NULL, (msg), (out))
+#define SV4_HMAC_B(key, msg, out)	c19_spec_call(AWS_K_HMAC, NULL, (key), (msg), (out))
 #include "sigv4_spec.h"
 
-#define C19_SPEC_BEGIN(k0) do { c19_sp_k = (k0); c19_sp_ok_kind = c19_sp_ok_key = c19_sp_ok_msg = c19_sp_ok_count = 1; } while (0)
+#define C19_SPEC_BEGIN(k0) do { c19_sp_k = (k0); c19_sp_ok_kind = c19_sp_ok_key = c19_sp_ok_msg = c19_sp_ok_count = 1; sv4_domain_ok = 1; } while (0)
 #define C19_SPEC_END() do { \
 	__CPROVER_assert(c19_sp_ok_count && c19_sp_k == g_aws_n, "SigV4 lockstep: the implementation made exactly the hash calls of the specification, no more, no fewer"); \
 	__CPROVER_assert(c19_sp_ok_kind, "SigV4 lockstep: every call uses the primitive (SHA256 / HMAC-SHA256) the specification uses"); \
 	__CPROVER_assert(c19_sp_ok_key, "SigV4 lockstep: every HMAC key equals the specification's (AWS4||secret, then kDate, kRegion, kService, kSigning)"); \
-	__CPROVER_assert(c19_sp_ok_msg, "SigV4 lockstep: every hashed message equals the specification's byte for byte (date, region, service, aws4_request, canonical request, string to sign)"); \
+	__CPROVER_assert(c19_sp_ok_msg, "SigV4 lockstep: every hashed message equals the specification's (date, region, service, aws4_request, canonical request, string to sign)"); \
+	__CPROVER_assert(sv4_domain_ok, "SV4_DOMAIN: inputs the published algorithm would URI-encode are in the identity domain"); \
 	} while (0)
 
-/* a C string equals a specification string */
+/* is `p` the unmodified result of an asprintf call whose normal form is E ? */
 static int
-c19_same(const char * s, const struct sv4_str * E)
+c19_result_is(const char * p, const struct aws_stream * E)
+{
+	size_t i, k;
+	int ok = 0;
+
+	for (k = 0; k < AWS_NREC; k++) {
+		if (k < g_aws_fmt.n) {
+			const struct aws_fmt_rec * r = &g_aws_fmt.rec[k];
+			int same = (p == r->result);
+
+			for (i = 0; i < AWS_OUTMAX; i++)
+				if (i <= r->len && (uint8_t)p[i] != r->snap[i])
+					same = 0;
+			if (same && aws_stream_eq(&r->s, E))
+				ok = 1;
+		}
+	}
+	return (ok);
+}
+
+/* a C string equals a one-run normal form byte for byte */
+static int
+c19_same_text(const char * s, const struct aws_stream * E)
 {
 	size_t i;
-	int same = 1;
+	int same = (E->n == 1 && E->t[0].kind == AWS_TK_TEXT);
 
-	for (i = 0; i < SV4_MAX; i++)
-		if (i < E->n && (uint8_t)s[i] != E->b[i])
+	if (!same)
+		return (0);
+	for (i = 0; i < AWS_TXMAX; i++)
+		if (i < E->t[0].len && (uint8_t)s[i] != E->t[0].text[i])
 			same = 0;
-	if (E->n >= SV4_MAX || s[E->n] != '\0')
+	if (s[E->t[0].len] != '\0')
 		same = 0;
 	return (same);
 }
@@ -91,40 +189,62 @@ int aws_asprintf9(char **, const char *, const void *, const void *, const void 
 #define C19_PAD9(f, a1, a2, a3, a4, a5, a6, a7, a8, a9, ...) \
 	f, C19_A(a1), C19_A(a2), C19_A(a3), C19_A(a4), C19_A(a5), C19_A(a6), C19_A(a7), C19_A(a8), C19_A(a9)
 #define asprintf(ret, ...) aws_asprintf9(ret, C19_PAD9(__VA_ARGS__, 0, 0, 0, 0, 0, 0, 0, 0, 0))
+/*
+ * hexify: the REAL util/hexify.c, followed by a ghost registration of its output as an internal string of fixed
+ * known length (2 * len) for the normal form (models/aws_stream.h).
+ */
 #include "util/hexify.c"
+static void
+c19_hexify(const uint8_t * in, char * out, size_t len)
+{
+
+	hexify(in, out, len);
+	__CPROVER_assert(g_aws_nfix < AWS_NFIX, "MODEL-BOUND c19: more than AWS_NFIX fixed-length strings");
+	__CPROVER_assume(g_aws_nfix < AWS_NFIX);
+	g_aws_fix[g_aws_nfix].ptr = out;
+	g_aws_fix[g_aws_nfix].len = 2 * len;
+	g_aws_nfix++;
+}
+#define hexify c19_hexify
 #include "aws/aws_sign.c"
+#undef hexify
 struct c19_ghost g_c19;
 
-/* ---- arbitrary bounded inputs ---- */
+/* ---- arbitrary inputs ---- */
 /*
  * an object of max+1 bytes, NUL in the last one, arbitrary before: every string of 0..max characters (shorter ones
- * through interior NULs).  The object size is a constant on purpose: objects of symbolic size send every access
- * through CBMC's array theory, which does not scale to this proof.
+ * through interior NULs).  A local array, so that its address is a constant for the symbolic execution (the
+ * registries are searched by address) and its size is a constant (objects of symbolic size send every access
+ * through CBMC's array theory).
  */
 #define C19_INSTR(name, max) \
-	const size_t l_##name = (max); \
-	IN_BYTES(name##_o, (max) + 1, (max) + 1); \
+	uint8_t name##_o[(max) + 1]; \
 	name##_o[max] = 0; \
 	const char * name = (const char *)name##_o
 
+#define C19_REG(id, p) do { g_aws_in[id].ptr = (p); g_aws_in[id].len = strlen((const char *)(p)); } while (0)
+
 /* property C19 quantifies these arguments over the URI-unreserved alphabet (paths: plus '/') */
 static void
-c19_alphabet(const uint8_t * s, size_t l, int is_path)
+c19_alphabet(const uint8_t * s, int is_path)
 {
 	size_t i;
 
 	for (i = 0; i < C19_SMAX; i++)
-		if (i < l)
-			__CPROVER_assume(s[i] == 0 || sv4_unreserved(s[i]) || (is_path && s[i] == '/'));
+		__CPROVER_assume(s[i] == 0 || sv4_unreserved(s[i]) || (is_path && s[i] == '/'));
 }
-#define C19_INSTR_URI(name, is_path) C19_INSTR(name, C19_SMAX); c19_alphabet(name##_o, l_##name, is_path)
+#define C19_INSTR_URI(name, is_path) C19_INSTR(name, C19_SMAX); c19_alphabet(name##_o, is_path)
 
 #define C19_INBODY() \
 	IN(int, nobody); IN(size_t, bodylen); \
 	__CPROVER_assume(nobody || bodylen <= C19_BMAX); \
-	IN_BYTES(body_o, C19_BMAX, C19_BMAX); \
-	const uint8_t * body = nobody ? NULL : body_o
+	uint8_t body_o[C19_BMAX]; \
+	const uint8_t * body = nobody ? NULL : body_o; \
+	g_aws_in[C19_ID_BODY].ptr = body; g_aws_in[C19_ID_BODY].len = nobody ? 0 : bodylen; g_aws_in[C19_ID_BODY].blob = 1
 
 #define C19_MODELS_RESET() do { \
+	size_t c19_i_; \
+	for (c19_i_ = 0; c19_i_ < AWS_NIN; c19_i_++) { g_aws_in[c19_i_].ptr = NULL; g_aws_in[c19_i_].len = 0; g_aws_in[c19_i_].blob = 0; } \
+	g_aws_nfix = 0; g_aws_fmt.n = 0; \
 	g_aws_n = 0; g_aws_time.time_calls = 0; g_aws_time.gm_valid = 0; \
 	IN(size_t, hx); g_c19.hx = hx; IN(size_t, bx); g_c19.bx = bx; } while (0)
